@@ -8,14 +8,19 @@ namespace Uniflow.FlowN
 open Uniflow.Tracer Uniflow.Node Uniflow.Flow Uniflow.FlowInv Uniflow.FlowG Uniflow.ATracer Uniflow.FlowH Uniflow.FlowM
 open Uniflow.ATracer (getL_setOrDel getL_aset)
 
+theorem introS_finish0 (i : Rid) (o : Outcome) : introS (.finish 0 o) = introS (.finish i o) := by
+  cases o <;> rfl
+
 /-- a program of the class with at least one derived packet: links of all, then writes of all -/
 theorem program_mk (kind : Kind) (p : Pkt) (o : Outcome) (ops : List Op) (hk : KindOK kind)
-    (hp : program kind p o = some ops) (hne : linkTargets ops ≠ []) :
-    ∃ lk wr, ops = mkOps p.id lk wr ∧ wr.map (·.2.id) = lk ∧ ∀ x ∈ wr, x.1 < maxW := by
+    (hp : program kind p o = some ops) (hne : linkTargets ops ≠ [])
+    (hfresh : ∀ x ∈ introS (.finish 0 o), x ≠ p.id) :
+    ∃ lk wr, ops = mkOps p.id lk wr ∧ wr.map (·.2.id) = lk ∧ (∀ x ∈ wr, x.1 < maxW) ∧ p.id ∉ lk := by
   cases o with
   | err q =>
     simp only [program, Option.some.injEq] at hp; subst hp
-    exact ⟨[q.id], [(errW, q)], rfl, rfl, by simp [errW, maxW]⟩
+    exact ⟨[q.id], [(errW, q)], rfl, rfl, by simp [errW, maxW],
+      by simpa using fun e => hfresh q.id (by simp [introS]) e.symm⟩
   | outs qs =>
     cases kind with
     | manyToOne _ =>
@@ -23,7 +28,8 @@ theorem program_mk (kind : Kind) (p : Pkt) (o : Outcome) (ops : List Op) (hk : K
       match qs, hp with
       | [some q], hp =>
         simp only [Option.some.injEq] at hp; subst hp
-        exact ⟨[q.id], [(outW 0, q)], rfl, rfl, by simp [outW, maxW]⟩
+        exact ⟨[q.id], [(outW 0, q)], rfl, rfl, by simp [outW, maxW],
+          by simpa using fun e => hfresh q.id (by simp [introS, cellsOf]) e.symm⟩
       | [], hp => simp only [Option.some.injEq] at hp; subst hp; simp [linkTargets] at hne
       | [none], hp => simp only [Option.some.injEq] at hp; subst hp; simp [linkTargets] at hne
       | _ :: _ :: _, hp => simp only [Option.some.injEq] at hp; subst hp; simp [linkTargets] at hne
@@ -32,7 +38,8 @@ theorem program_mk (kind : Kind) (p : Pkt) (o : Outcome) (ops : List Op) (hk : K
       match qs, hp with
       | [some q], hp =>
         simp only [Option.some.injEq] at hp; subst hp
-        exact ⟨[q.id], [(outW 0, q)], rfl, rfl, by simp [outW, maxW]⟩
+        exact ⟨[q.id], [(outW 0, q)], rfl, rfl, by simp [outW, maxW],
+          by simpa using fun e => hfresh q.id (by simp [introS, cellsOf]) e.symm⟩
     | oneToMany n =>
       simp only [program] at hp
       cases hv : validOuts n 0 qs with
@@ -41,9 +48,14 @@ theorem program_mk (kind : Kind) (p : Pkt) (o : Outcome) (ops : List Op) (hk : K
         simp [linkTargets] at hne
       | cons v vs =>
         simp only [hv, Option.some.injEq] at hp
-        refine ⟨(v :: vs).map (·.2.id), (v :: vs).map (fun iq => (outW iq.1, iq.2)), ?_, ?_, ?_⟩
+        refine ⟨(v :: vs).map (·.2.id), (v :: vs).map (fun iq => (outW iq.1, iq.2)), ?_, ?_, ?_, ?_⟩
         · rw [← hp]; simp [mkOps, List.map_map, Function.comp_def]
         · simp [List.map_map, Function.comp_def]
+        rotate_left
+        · intro hm
+          have hsub := validOuts_sub n 0 qs
+          rw [hv] at hsub
+          exact hfresh p.id (by simpa [introS] using hsub.subset hm) rfl
         · intro x hx
           simp only [List.mem_map] at hx
           obtain ⟨iq, hiq, e⟩ := hx
@@ -65,13 +77,16 @@ theorem HI_finish (kinds : List Kind) (links : List (Nat × List Tgt)) (hwf : Gr
   have hnl := h.nl n nd hn i _ hg
   have hi63 : i < 63 :=
     Nat.lt_of_lt_of_le (getThread_lt _ _ _ hg) (by rw [h.thr n nd hn]; exact nIn_le _ (h.kindOK n nd hn))
-  obtain ⟨lk, wr, hops, hwr, hwb⟩ := program_mk nd.kind p o ops (h.kindOK n nd hn) hp hne
-  have hlt : linkTargets ops = lk := by rw [hops, linkTargets_mkOps]
   have hX : (⟨p.id, i, .cells []⟩ : Req) ∈ (aa n).reqs := by have := hjb.j.th i _ hg; simpa [ThOK] using this
-  obtain ⟨_, hsub⟩ := program_ok nd.kind p o ops i i (aa n).reqs hp hX
-  obtain ⟨hst, hjb'⟩ := jbm_finish nd (aa n) g.next nx hjb i p grp inbox hg o ops hp hnd hfr hle
   have hpi : p.id ∈ ids (aa n).reqs := mem_ids_of_mem hX (by simp [idsR])
   have hplt : p.id < g.next := hjb.bnd p.id (List.mem_append_left _ hpi)
+  have hfresh : ∀ x ∈ introS (.finish i o), x ≠ p.id :=
+    fun x hx e => by rw [e] at hx; exact Nat.lt_irrefl _ (Nat.lt_of_lt_of_le hplt (hfr _ hx).1)
+  obtain ⟨lk, wr, hops, hwr, hwb, hplk⟩ := program_mk nd.kind p o ops (h.kindOK n nd hn) hp hne
+    (by rw [introS_finish0 i o]; exact hfresh)
+  have hlt : linkTargets ops = lk := by rw [hops, linkTargets_mkOps _ _ _ hplk]
+  obtain ⟨_, hsub, _⟩ := program_ok nd.kind p o ops i i (aa n).reqs hp hX (Or.inl hfresh)
+  obtain ⟨hst, hjb'⟩ := jbm_finish nd (aa n) g.next nx hjb i p grp inbox hg o ops hp hnd hfr hle
   have hlkb : ∀ t ∈ linkTargets ops, g.next ≤ t ∧ t < nx := fun t ht' => hfr t (hsub.subset ht')
   have hdis := jbm_disj nd (aa n) g.next hjb i _ hg p.id hpi
   have hpU : Unlogged g.log p.id := req_unlogged g.log n i _ (aa n) p.id hnl hX rfl
@@ -95,7 +110,7 @@ theorem HI_finish (kinds : List Kind) (links : List (Nat × List Tgt)) (hwf : Gr
     have := (hlkb q hq).1
     simp only [bne_iff_ne, ne_eq]
     intro e; rw [e] at this; exact Nat.lt_irrefl _ (Nat.lt_of_lt_of_le hplt this)
-  obtain ⟨hr1, hr2⟩ := remOps_mkOps p.id lk wr
+  obtain ⟨hr1, hr2⟩ := remOps_mkOps p.id lk wr hplk
   have hlt' := nlIdsT_lt nd (aa n) g.next hjb i _ hg
   refine ⟨_, hst, hfilt, ?_⟩
   have key := HI_thread_step kinds links hwf aa g h n nd
@@ -105,7 +120,7 @@ theorem HI_finish (kinds : List Kind) (links : List (Nat × List Tgt)) (hwf : Gr
       apply nlt_finish g.log lg' n i (aa n) p grp inbox ops hnl hjb.j.inv.nodup hX
       · intro q hq e
         exact hdis (by simp only [tids, List.mem_append, List.mem_map]; left; exact ⟨q, hq, e⟩)
-      · rw [hops, hr1, linkTargets_mkOps]
+      · rw [hops, hr1, linkTargets_mkOps _ _ _ hplk]
       · intro p' hp'; rw [hops]; exact hr2 p' hp'
       · exact hne
       · rw [hops]; exact wOK_mkOps p.id lk wr hwb
